@@ -42,13 +42,14 @@ ASSUMPTIONS = [
     "unsigned big-endian number; error outside the range; `pdu` = payload, `reversed_pdu` = the dlc payload bytes in reverse order "
     "(do_reverse_pdu in the generated file); the generated if/else is executed as written; identifier = N in `if can_id == N` "
     "(the extended flag is not recorded by this artefact); dlc = the frame's declared length",
-    "T-FIBEX (ASAM MCD-2 NET): SIGNAL-INSTANCE/BIT-POSITION = LSB0 number of the signal's LEAST significant bit for both byte orders; "
-    "IS-HIGH-LOW-BYTE-ORDER true: more significant bits continue towards lower byte addresses, false: ascending LSB0 numbers; "
+    "T-FIBEX: FIBEX reading convention = canmatrix's own importer (fibex.py get_signals_for_pdu; the ASAM text is not available offline): "
+    "SIGNAL-INSTANCE/BIT-POSITION (+ start of the PDU it lives in) is handed to set_startbit(bitNumbering=1): Intel = LSB0 number of the "
+    "least significant bit, Motorola (IS-HIGH-LOW-BYTE-ORDER true) = LSB0 number of the MOST significant bit (DBC start bit); "
     "CODED-TYPE BASE-DATA-TYPE A_UINT*/A_INT*/A_FLOAT* and BIT-LENGTH; COMPU-RATIONAL-COEFFS: phys = (V0 + V1*raw)/denominator; "
-    "FRAME/BYTE-LENGTH; IDENTIFIER-VALUE with attribute EXTENDED-ADDRESSING (fibex4can, default false); MULTIPLEXER: SWITCH has the "
-    "position/order/length of the selector; positions inside a switched or static PDU are relative to its SEGMENT-POSITION: frame "
-    "position = segment BIT-POSITION + BIT-POSITION; SWITCH-CODE = selector value; the constant cluster elements "
-    "IS-HIGH-LOW-BIT-ORDER/BIT-COUNTING-POLICY are not interpreted",
+    "FRAME/BYTE-LENGTH; IDENTIFIER-VALUE with attribute EXTENDED-ADDRESSING (default false, as the importer reads it); MULTIPLEXER (not read "
+    "by the importer, transcribed by analogy with its PDU-INSTANCE offset): SWITCH has the position/order/length of the selector; a switched or "
+    "static PDU starts at its SEGMENT-POSITION: frame position = segment BIT-POSITION + BIT-POSITION, and a signal instance lies inside its "
+    "PDU's BYTE-LENGTH; SWITCH-CODE = selector value; the constant cluster elements IS-HIGH-LOW-BIT-ORDER/BIT-COUNTING-POLICY are not interpreted",
     "T-CSV (canmatrix xls/csv column meaning, option xlsMotorolaBitFormat): start = 8*(Signal Byte No. - 1) + Signal Bit No.; Intel: "
     "LSB0 number of the LSB; Motorola: msb = LSB0 number of the MSB, lsb = LSB0 number of the LSB, msbreverse = sequential MSB0 "
     "number of the MSB; Byteorder i/m; 'is signed' s/u; ID = hex digits + 'h', 'xh' for extended; increment column '<factor>  <unit>' "
@@ -124,7 +125,7 @@ def ws_eval(payload, rec):
 
 def fibex_positions(pos, ln, hilo):
     if hilo:
-        return [flip(pos) - (ln - 1 - j) for j in range(ln)]
+        return [flip(pos) + j for j in range(ln)]
     return [flip(pos + ln - 1 - j) for j in range(ln)]
 
 
@@ -865,7 +866,7 @@ def run(chk):
                                       dict(describe(fr, s), segment=r.get("segment")), spec_msf(s), pos)
                     else:
                         chk.violation("fibex-bit-position" + ("-intel" if s.is_little_endian else ""),
-                                      "BIT-POSITION read with the FIBEX convention (position of the least significant bit) does not select the signal's bits",
+                                      "BIT-POSITION read with the FIBEX importer's convention does not select the signal's bits",
                                       dict(describe(fr, s), bit_position=r["rel"]), spec_msf(s), rel)
                 elif good:
                     def getter(p, r=r, t=t):
@@ -876,13 +877,12 @@ def run(chk):
                     # the signal must lie inside the PDU it is placed in and inside the segment that PDU is mapped to
                     base, seglen = r["segment"]
                     relpos = fibex_positions(r["rel"], r["size"], r["hilo"])
-                    if min(relpos) < 0 or max(relpos) >= 8 * r["pdu_bytes"] or max(relpos) >= seglen or base % 8 or seglen % 8:
+                    if min(relpos) < 0 or max(relpos) >= 8 * r["pdu_bytes"] or max(relpos) >= seglen:
                         chk.violation("fibex-mux-pdu-range", "a signal instance leaves the switched/static PDU or its segment",
                                       dict(describe(fr, s), segment=r["segment"], pdu_bytes=r["pdu_bytes"], bit_position=r["rel"]))
                 register("fibex", "", fr, s, nt)
                 if t is not None:
-                    add(1908, [[r["segment"][0] if "segment" in r else 0], sig_group(s)], [[r["rel"], int(r["hilo"]), r["size"], t[0], t[1]]],
-                        dict(fibex=describe(fr, s), segment=r.get("segment")))
+                    add(1903, [sig_group(s)], [[r["rel"], int(r["hilo"]), r["size"], t[0], t[1]]], dict(fibex=describe(fr, s), segment=r.get("segment")))
                 add(1913, [[r["pos"], int(r["hilo"]), r["size"]]], [pos], dict(fibex_positions=(r["pos"], r["size"], r["hilo"])))
         if k < 1:
             chk.sample(dict(artefact="fibex", excerpt=re.findall(r"<fx:SIGNAL-INSTANCE.*?</fx:SIGNAL-INSTANCE>", data.decode("utf8"), re.S)[:1]))
@@ -1015,7 +1015,7 @@ def run(chk):
         if core.parse_out(o) != exp:
             bad += 1
             chk.tie_break("exports", inf, core.parse_out(o), exp)
-    chk.ties["correspondence"] = {"suite": "exports: parsed writer output = model emit (1901-1905); Python tool conventions = model (1911-1915, 1921); "
+    chk.ties["correspondence"] = {"suite": "exports: parsed writer output = model emit (1901-1905, FIBEX switch and segments 1907, 1909); Python tool conventions = model (1911-1915, 1921); "
                                            "layouts.bigpos = pos_of (1920)", "cases": len(lines), "per_command": {str(k): v for k, v in sorted(per.items())},
                                   "disagreements": bad}
     idx = rng.sample(range(len(lines)), min(300, len(lines)))
